@@ -303,6 +303,9 @@ func c08History(c *vc.Ctx, idx int) {
 	cfg := lockCfg{Label: "c08", NVals: nn, NNodes: nn, Rotate: true, MaxVals: int64(nn + 1), Blocks: c.Pick(24, 70), JumpTime: idx%2 == 0, NRelayers: 3,
 		W:       lockWeights{Create: 8, Lock: 40, Unlock: 45, Claim: 25, Grant: 10, Weight: 6, Threshold: 6, Absent: 12, Evidence: 3, BigUnlock: 10},
 		Relayer: func(g *relayertypes.GenesisState) { g.Params.ElectingPeriod = 25 * time.Second }}
+	if idx%3 == 1 {
+		cfg.MempoolMax = 64 // an operator may raise the shipped default of 10: 'whatever the mempool contents'
+	}
 	var h *lockHist
 	mutants := c08Mutants()
 	accepted := map[string]int{}
@@ -385,10 +388,19 @@ func c08History(c *vc.Ctx, idx int) {
 		if gerr == nil {
 			num, seq, _ := h.ch.Account(g.Proposer.Addr)
 			k := r.Intn(5)
+			flood := cfg.MempoolMax > 10 && b%5 == 2
+			if flood {
+				k = 18 + r.Intn(8) // more admissible transactions than a block may carry
+				c.Count("mempool_floods", 1)
+			}
 			var specs []world.TxSpec
 			s := seq
 			for i := 0; i < k; i++ {
-				switch r.Intn(7) {
+				x := r.Intn(7)
+				if flood {
+					x = []int{0, 2, 6}[r.Intn(3)]
+				}
+				switch x {
 				case 0, 1:
 					if good == nil {
 						good, _ = bm.payload("hashes", g.Proposer.AddrStr, b)
